@@ -61,6 +61,10 @@ type JState struct {
 	// pending values, Bases[j] the height at which open container j put its marker (array) or its map (object).
 	H     int
 	Bases Seq
+	// Payload of the string being read: SLen is the number of bytes its decoded form has so far, RN the value of the
+	// hex digits of the \u escape being read.
+	SLen int
+	RN   int
 }
 
 // Init is the state before the first byte.
@@ -70,6 +74,28 @@ func Init(multi bool) JState {
 
 // IsWS reports JSON whitespace.
 func IsWS(b int) bool { return b == ' ' || b == '\t' || b == '\n' || b == '\r' }
+
+// HexVal is the value of a hex digit.
+func HexVal(b int) int {
+	if '0' <= b && b <= '9' {
+		return b - '0'
+	}
+	if 'a' <= b && b <= 'f' {
+		return b - 'a' + 10
+	}
+	return b - 'A' + 10
+}
+
+// UTF8Len is the length of the UTF-8 encoding of a code unit below 0x10000 (surrogates are replaced by U+FFFD).
+func UTF8Len(r int) int {
+	if r < 0x80 {
+		return 1
+	}
+	if r < 0x800 {
+		return 2
+	}
+	return 3
+}
 
 // IsDigit reports an ASCII digit.
 func IsDigit(b int) bool { return '0' <= b && b <= '9' }
@@ -180,6 +206,7 @@ func startValue(q JState, b int) JState {
 	if b == '"' {
 		r.Ph = Str
 		r.Key = false
+		r.SLen = 0
 		return r
 	}
 	if b == '-' {
@@ -316,6 +343,7 @@ func Step(q JState, b int) JState {
 			r := consume(q, b)
 			r.Ph = Str
 			r.Key = true
+			r.SLen = 0
 			return r
 		}
 		if b == '}' && ph == ObjFirst {
@@ -354,18 +382,21 @@ func Step(q JState, b int) JState {
 			r.Ph = StrEsc
 			return r
 		}
+		r.SLen = q.SLen + 1 // a plain byte stands for itself
 		return r
 	}
 	if ph == StrEsc {
 		if b == '"' || b == '\\' || b == '/' || b == 'b' || b == 'f' || b == 'n' || b == 'r' || b == 't' {
 			r := consume(q, b)
 			r.Ph = Str
+			r.SLen = q.SLen + 1 // a two-byte escape stands for one byte
 			return r
 		}
 		if b == 'u' {
 			r := consume(q, b)
 			r.Ph = StrU
 			r.K = 0
+			r.RN = 0
 			return r
 		}
 		return fail(q)
@@ -375,8 +406,10 @@ func Step(q JState, b int) JState {
 			return fail(q)
 		}
 		r := consume(q, b)
+		r.RN = q.RN*16 + HexVal(b)
 		if q.K >= 3 {
 			r.Ph = Str
+			r.SLen = q.SLen + UTF8Len(r.RN) // the UTF-8 form of the code unit (a lone surrogate becomes U+FFFD: 3 bytes)
 			return r
 		}
 		r.K = q.K + 1
